@@ -132,7 +132,7 @@ def _ast_checks(w):
                 bad.append("%s: result is not ''.join(result)" % q)
         return (not bad, bad or "attribute values are appended only as html.escape(attValue, quote=1)")
 
-    w.astcheck("C18.ast.attribute-values-escaped", ["C18"], attribute_values_escaped)
+    w.astcheck("C18.ast.attribute-values-escaped", ["C18"], attribute_values_escaped, soft=True)
 
 
 def register18(w):
